@@ -18,9 +18,11 @@ open Conv
    Shared by the C08, C09 and C18 handlers. *)
 let code_variant = Fix
 
-(* Which writer Model.serialize_named_v mirrors: writer_cur = the shipped serialize.rs; to follow patches/0008 (no alias line
-   for an array) set w_no_array_alias, to follow patches/0010 (labels are not named after inputs) set w_input_labels;
-   writer_fix = both.  Used by the C09 handler. *)
+(* Which writer Model.serialize_named_v mirrors: writer_cur = the shipped serialize.rs.  One flag per prepared patch:
+   w_no_array_alias = patches/0008 (no alias line for an array; goes with code_variant = Fix2),
+   w_input_labels = patches/0010 (bad/constraint labels are not named after inputs),
+   w_last_label = patches/0011 (only the last label that refers to an expression is named after it);
+   writer_fix = all three; a subset is { writer_cur with w_input_labels = true } etc.  Used by the C09 handler. *)
 let writer_variant = writer_cur
 
 let big_coqstr (s : string) : char list =
